@@ -107,6 +107,10 @@ const REGRESSION: &[&str] = &[
     "type Query { a: Int } input A { b: B! } input B { a: A! }",
     "type Query { a: Int } input A { b: [A!]! c: A }",
     "type Query { a: Int } input A { a: A! }",
+    "type Query { f(arg: A): Int } input A { b: B! = { x: 1 } x: Int } input B { a: A! x: Int }",
+    "type Query { f(arg: Self): Int } input Self { again: Self! = { n: 1 } n: Int }",
+    "type Query { f(arg: A): Int } input A { b: B = { x: 1 } x: Int } input B { a: A! x: Int }",
+    "type Query { f(arg: A): Int } input A { b: [B!]! = [] x: Int } input B { a: A! = { x: 2 } x: Int }",
     "type Query { a(x: Int = \"no\"): Int }",
     "type Query { a: Int } directive @d(a: Int @d) on ARGUMENT_DEFINITION",
     "type Query { a: Int } directive @d(a: E) on ENUM_VALUE enum E { V @d }",
@@ -146,6 +150,7 @@ pub fn random_valid(ctx: &mut Ctx) -> Vec<GDef> {
 pub fn run(ctx: &mut Ctx) {
     for s in REGRESSION { judge(ctx, s, "regression"); }
     streams(ctx);
+    streams2(ctx);
     // repo test data as read-only seeds
     let repo = std::env::var("VERIF_REPO").unwrap_or_else(|_| "/repo".into());
     for dir in ["diagnostics", "ok"] {
@@ -211,7 +216,10 @@ const LIMIT: usize = 32;
 #[derive(Clone, Copy, Debug)]
 enum IF { N(usize), Nl(usize), L(usize), Ll(usize), S }
 
-fn input_case(ctx: &mut Ctx, g: &[Vec<IF>]) {
+/// `dflt[i][k]`: field k of node i also carries a default value (which must not matter)
+fn input_case(ctx: &mut Ctx, g: &[Vec<IF>]) { let d: Vec<Vec<bool>> = g.iter().map(|fs| vec![false; fs.len()]).collect(); input_case_d(ctx, g, &d) }
+
+fn input_case_d(ctx: &mut Ctx, g: &[Vec<IF>], dflt: &[Vec<bool>]) {
     let n = g.len();
     let tn = |j: usize| if j < n { format!("In{j}") } else { "En".to_string() };
     let mut text = String::from("type Query { a: Int }\n");
@@ -221,8 +229,10 @@ fn input_case(ctx: &mut Ctx, g: &[Vec<IF>]) {
         let mut e = vec![];
         for (k, f) in fs.iter().enumerate() {
             let (t, c) = match f { IF::N(j) => (format!("{}!", tn(*j)), format!("N{j}")), IF::Nl(j) => (tn(*j), format!("n{j}")), IF::L(j) => (format!("[{}!]!", tn(*j)), format!("L{j}")), IF::Ll(j) => (format!("[{}]", tn(*j)), format!("l{j}")), IF::S => ("Int!".to_string(), "S".to_string()) };
-            parts.push(format!("f{k}: {t}"));
-            e.push(c);
+            let has_d = dflt[i][k];
+            let lit = match f { IF::N(j) | IF::Nl(j) => if *j < n { if k % 2 == 0 { "{}" } else { "{pad: 1}" } } else { "V" }, IF::L(_) | IF::Ll(_) => "[]", IF::S => "1" };
+            parts.push(if has_d { format!("f{k}: {t} = {lit}") } else { format!("f{k}: {t}") });
+            e.push(if has_d { format!("{c}d") } else { c });
         }
         text.push_str(&format!("input In{i} {{ {} pad: Int }}\n", parts.join(" ")));
         encs.push(e.join(","));
@@ -334,13 +344,29 @@ fn streams(ctx: &mut Ctx) {
             let mut g: Vec<Vec<IF>> = (0..k).map(|i| if i + 1 < k { vec![IF::N(i + 1)] } else { vec![] }).collect();
             match close { 0 => {} 1 => g[k - 1].push(IF::N(0)), 2 => g[k - 1].push(IF::N(k / 2)), 3 => g[k - 1].push(IF::N(k - 1)), _ => { g[k - 1].push(IF::Nl(0)); g[0].insert(0, IF::N(k - 1)); } }
             input_case(ctx, &g);
+            // the same chain with default values on some / all edges, the closing edge included
+            for mode in 0..3 {
+                let d: Vec<Vec<bool>> = g.iter().enumerate().map(|(i, fs)| fs.iter().map(|_| match mode { 0 => true, 1 => i + 1 == k, _ => ctx.rng.chance(1, 3) }).collect()).collect();
+                input_case_d(ctx, &g, &d);
+            }
+        }
+    }
+    // small cycles with a default on every subset of their edges
+    for (g, ne) in [(vec![vec![IF::N(0)]], 1usize), (vec![vec![IF::N(1)], vec![IF::N(0)]], 2), (vec![vec![IF::N(1)], vec![IF::N(2)], vec![IF::N(0)]], 3), (vec![vec![IF::N(1), IF::Nl(0)], vec![IF::L(0), IF::N(0)]], 4)] {
+        for mask in 0..(1usize << ne) {
+            let mut bit = 0;
+            let d: Vec<Vec<bool>> = g.iter().map(|fs| fs.iter().map(|_| { let b = mask & (1 << bit) != 0; bit += 1; b }).collect()).collect();
+            input_case_d(ctx, &g, &d);
         }
     }
     let n_rand = if ctx.thorough { 20_000 } else { 1_500 };
-    for _ in 0..n_rand {
+    for round in 0..n_rand {
         let n = 1 + ctx.rng.below(8);
         let g: Vec<Vec<IF>> = (0..n).map(|_| { let nf = ctx.rng.below(4); (0..nf).map(|_| { let j = ctx.rng.below(n + 1); match ctx.rng.below(8) { 0..=4 => IF::N(j), 5 => IF::Nl(j), 6 => IF::L(j), _ => IF::S } }).collect() }).collect();
-        input_case(ctx, &g);
+        if round % 2 == 0 { input_case(ctx, &g); } else {
+            let d: Vec<Vec<bool>> = g.iter().map(|fs| fs.iter().map(|_| ctx.rng.chance(1, 3)).collect()).collect();
+            input_case_d(ctx, &g, &d);
+        }
     }
     // ---- implements
     let subsets = |n: usize| -> Vec<Vec<usize>> { (0..(1usize << (n + 1))).map(|m| (0..=n).filter(|j| m & (1 << j) != 0).collect()).collect() };
@@ -421,6 +447,160 @@ fn streams(ctx: &mut Ctx) {
             t
         }).collect();
         dir_case(ctx, &dirs, &types);
+    }
+}
+
+// ---- implementation contract of one type against its interfaces, and kinds of referenced types
+
+fn ty_enc(t: &T) -> String {
+    match t {
+        T::N(n) => format!("n{n};"),
+        T::NN(inner) => match &**inner { T::N(n) => format!("N{n};"), T::L(x) => format!("L{}", ty_enc(x)), T::NN(x) => ty_enc(x) },
+        T::L(x) => format!("l{}", ty_enc(x)),
+    }
+}
+
+fn field_enc(f: &GField) -> String {
+    let args: Vec<String> = f.args.iter().map(|a| format!("{}^{}^{}", a.name, a.ty.print(), if matches!(a.ty, T::NN(_)) && a.default.is_none() { "r" } else { "o" })).collect();
+    format!("{}~{}~{}", f.name, ty_enc(&f.ty), args.join(","))
+}
+
+fn print_fields(fs: &[GField]) -> String {
+    fs.iter().map(|f| {
+        let a = if f.args.is_empty() { String::new() } else { format!("({})", f.args.iter().map(|a| format!("{}: {}{}", a.name, a.ty.print(), a.default.as_ref().map(|d| format!(" = {d}")).unwrap_or_default())).collect::<Vec<_>>().join(", ")) };
+        format!("{}{}: {}", f.name, a, f.ty.print())
+    }).collect::<Vec<_>>().join(" ")
+}
+
+/// diagnostics on line `line` (1-based); Err when a diagnostic sits elsewhere
+fn count_on_lines(src: &str, lines: &[usize]) -> Result<Result<Vec<usize>, String>, String> {
+    catch(|| match Schema::parse_and_validate(src, "s.graphql") {
+        Ok(_) => Ok(vec![0; lines.len()]),
+        Err(e) => {
+            let mut c = vec![0; lines.len()];
+            for d in e.errors.iter() {
+                let Some(r) = d.line_column_range() else { return Err(format!("unexpected:no-location:{}", d.error)) };
+                match lines.iter().position(|l| *l == r.start.line) { Some(i) => c[i] += 1, None => return Err(format!("unexpected:line{}:{}", r.start.line, d.error)) }
+            }
+            Ok(c)
+        }
+    })
+}
+
+fn implfields_case(ctx: &mut Ctx, ifaces: &[Vec<GField>], tfields: &[GField], t_is_interface: bool) {
+    let mut text = String::from("type Query { a: Int }\ninterface Node { id: ID }\ntype A implements Node { id: ID x: Int }\ntype B { y: Int }\nunion U = A | B\n");
+    let mut subs = vec!["Node>A".to_string(), "U>A".to_string(), "U>B".to_string()];
+    for (i, fs) in ifaces.iter().enumerate() {
+        text.push_str(&format!("interface I{i} {{ {} }}\n", print_fields(fs)));
+        subs.push(format!("I{i}>T"));
+    }
+    let mut tf: Vec<GField> = tfields.to_vec();
+    tf.push(GField { name: "zz".into(), args: vec![], ty: T::n("Int"), dirs: vec![] });
+    let t_line = 6 + ifaces.len();
+    let imp: Vec<String> = (0..ifaces.len()).map(|i| format!("I{i}")).collect();
+    text.push_str(&format!("{} T implements {} {{ {} }}\n", if t_is_interface { "interface" } else { "type" }, imp.join(" & "), print_fields(&tf)));
+    let out = match count_on_lines(&text, &[t_line]) {
+        Err(p) => { ctx.fail("schema-validation-panic", &text, &p); "PANIC".to_string() }
+        Ok(Err(u)) => u,
+        Ok(Ok(c)) => c[0].to_string(),
+    };
+    let fe = |fs: &[GField]| fs.iter().map(field_enc).collect::<Vec<_>>().join("&");
+    let ienc: Vec<String> = ifaces.iter().map(|fs| fe(fs)).collect();
+    if out != "0" { ctx.nontrivial(&format!("if|{}|{}", fe(&tf), ienc.join("|"))); }
+    ctx.stat(if out == "0" { "implfields_ok" } else { "implfields_err" });
+    ctx.case("c14.implfields", &[enc(&subs.join(",")), enc(&fe(&tf)), enc(&ienc.join("|"))], &out);
+    judge(ctx, &text, "stream-implfields");
+}
+
+fn kinds_case(ctx: &mut Ctx, x: &T, y: &T, y2: &T, z: &T, z2: &T, w: &str, w2: &str) {
+    // `In!` inside `In` would add the (different) input-cycle diagnostic to that line
+    let fix = |t: &T| if *t == T::n("In").nn() { T::n("In") } else { t.clone() };
+    let (z, z2) = (&fix(z), &fix(z2));
+    let text = format!("type Query {{ a: Int }}\nscalar S\ntype A {{ x: Int }}\ninterface I {{ x: Int }}\nunion U = A\nenum E {{ V }}\ninput N {{ x: Int }}\ntype T {{ f(a: {}): {} g: {} }}\ninput In {{ g: {} h: {} }}\nunion Un = {} | {}\n",
+        x.print(), y.print(), y2.print(), z.print(), z2.print(), w, w2);
+    let env = "Query:o,S:s,A:o,I:i,U:u,E:e,N:n,T:o,In:n,Un:u,Int:s,Float:s,String:s,Boolean:s,ID:s";
+    let out = match count_on_lines(&text, &[8, 9, 10]) {
+        Err(p) => { ctx.fail("schema-validation-panic", &text, &p); "PANIC".to_string() }
+        Ok(Err(u)) => u,
+        Ok(Ok(c)) => c.iter().map(|v| v.to_string()).collect::<Vec<_>>().join(","),
+    };
+    if out != "0,0,0" { ctx.nontrivial(&format!("ki|{text}")); }
+    ctx.stat(if out == "0,0,0" { "kinds_ok" } else { "kinds_err" });
+    ctx.case("c14.kinds", &[format!("={env}"), format!("={},{}", y.named(), y2.named()), format!("={}", x.named()), format!("={},{}", z.named(), z2.named()), format!("={w},{w2}")], &out);
+    judge(ctx, &text, "stream-kinds");
+}
+
+fn wrap_all(n: &str) -> Vec<T> {
+    vec![T::n(n), T::n(n).nn(), T::n(n).list(), T::n(n).list().nn(), T::n(n).nn().list(), T::n(n).nn().list().nn()]
+}
+
+fn streams2(ctx: &mut Ctx) {
+    // every pair (interface field type, implementing field type) over 6 names x 6 wrapper shapes
+    let names: &[&str] = if ctx.thorough { &["Int", "A", "B", "Node", "U", "T", "I0"] } else { &["Int", "A", "Node", "U", "T", "I0"] };
+    let mut tys: Vec<T> = vec![];
+    for n in names { tys.extend(wrap_all(n)); }
+    if ctx.thorough { tys.push(T::n("A").list().list()); tys.push(T::n("Node").nn().list().nn().list()); }
+    for a in &tys { for b in &tys {
+        let f = |t: &T| GField { name: "f".into(), args: vec![], ty: t.clone(), dirs: vec![] };
+        implfields_case(ctx, &[vec![f(a)]], &[f(b)], false);
+    } }
+    // arguments: every interface argument list over {a, b} against implementing variants
+    let arg = |n: &str, t: T, d: Option<&str>| GIn { name: n.into(), ty: t, default: d.map(|s| s.to_string()), dirs: vec![] };
+    let a_opts: Vec<Option<GIn>> = vec![None, Some(arg("a", T::n("Int"), None)), Some(arg("a", T::n("Int").nn(), None)), Some(arg("a", T::n("Int").list(), None)), Some(arg("a", T::n("String"), None)), Some(arg("a", T::n("Int"), Some("1")))];
+    let b_opts: Vec<Option<GIn>> = vec![None, Some(arg("b", T::n("Int").nn().list(), None)), Some(arg("b", T::n("Int").list(), None))];
+    let c_opts: Vec<Option<GIn>> = vec![None, Some(arg("c", T::n("Int"), None)), Some(arg("c", T::n("Int").nn(), None)), Some(arg("c", T::n("Int").nn(), Some("1"))), Some(arg("c", T::n("Int").nn().list().nn(), None))];
+    for ia in &a_opts { for ib in &b_opts { for ta in &a_opts { for tb in &b_opts { for tc in &c_opts {
+        let iargs: Vec<GIn> = [ia, ib].iter().filter_map(|x| (*x).clone()).collect();
+        let mut targs: Vec<GIn> = [ta, tb, tc].iter().filter_map(|x| (*x).clone()).collect();
+        if ctx.rng.chance(1, 2) { targs.reverse(); }
+        let fi = GField { name: "f".into(), args: iargs, ty: T::n("Int"), dirs: vec![] };
+        let ft = GField { name: "f".into(), args: targs, ty: T::n("Int"), dirs: vec![] };
+        implfields_case(ctx, &[vec![fi]], &[ft], false);
+    } } } } }
+    // random: one or two interfaces, several fields, perturbed implementations (objects and interfaces)
+    let n_rand = if ctx.thorough { 20_000 } else { 1_500 };
+    for _ in 0..n_rand {
+        let ni = 1 + ctx.rng.below(2);
+        let fnames = ["f", "g", "h"];
+        let mut ifaces: Vec<Vec<GField>> = vec![];
+        let rand_ty = |r: &mut Rng, tys: &Vec<T>| tys[r.below(tys.len())].clone();
+        let rand_args = |r: &mut Rng| -> Vec<GIn> { let mut v = vec![]; if r.chance(1, 3) { v.push(GIn { name: "a".into(), ty: if r.chance(1, 2) { T::n("Int") } else { T::n("Int").nn() }, default: None, dirs: vec![] }); } if r.chance(1, 4) { v.push(GIn { name: "b".into(), ty: T::n("String").list(), default: None, dirs: vec![] }); } v };
+        for _ in 0..ni {
+            let nf = 1 + ctx.rng.below(3);
+            ifaces.push((0..nf).map(|k| GField { name: fnames[k].into(), args: rand_args(&mut ctx.rng), ty: rand_ty(&mut ctx.rng, &tys), dirs: vec![] }).collect());
+        }
+        let mut tf: Vec<GField> = vec![];
+        for fs in &ifaces { for f in fs {
+            if tf.iter().any(|g| g.name == f.name) { continue; }
+            if ctx.rng.chance(1, 8) { continue; }
+            let mut g = f.clone();
+            match ctx.rng.below(8) {
+                0 => g.ty = rand_ty(&mut ctx.rng, &tys),
+                1 => g.ty = g.ty.clone().nn(),
+                2 => { let n = match g.ty.named() { "Node" => "A", "U" => "B", "I0" => "T", x => x }.to_string(); g.ty.set_named(&n); }
+                3 => { if !g.args.is_empty() { let k = ctx.rng.below(g.args.len()); g.args.remove(k); } }
+                4 => g.args.push(GIn { name: "c".into(), ty: if ctx.rng.chance(1, 2) { T::n("Int").nn() } else { T::n("Int") }, default: if ctx.rng.chance(1, 3) { Some("2".into()) } else { None }, dirs: vec![] }),
+                5 => { if let Some(a) = g.args.first_mut() { a.ty = if matches!(a.ty, T::NN(_)) { T::n("Int") } else { a.ty.clone().nn() }; } }
+                _ => {}
+            }
+            tf.push(g);
+        } }
+        let as_iface = ctx.rng.chance(1, 4);
+        implfields_case(ctx, &ifaces, &tf, as_iface);
+    }
+    // kinds of referenced types
+    let pool = ["S", "A", "I", "U", "E", "N", "Undef", "Int", "Float", "T", "In", "Un"];
+    for x in pool { for y in pool {
+        let w2 = if y == "A" { "Query" } else { "A" };
+        kinds_case(ctx, &T::n(x), &T::n(y), &T::n("Int"), &T::n(x), &T::n("Int"), y, w2);
+    } }
+    let n_rand = if ctx.thorough { 10_000 } else { 800 };
+    for _ in 0..n_rand {
+        let mut pick = |r: &mut Rng| { let n = *r.pick(&pool); let all = wrap_all(n); all[r.below(all.len())].clone() };
+        let (x, y, y2, z, z2) = (pick(&mut ctx.rng), pick(&mut ctx.rng), pick(&mut ctx.rng), pick(&mut ctx.rng), pick(&mut ctx.rng));
+        let w = *ctx.rng.pick(&pool); let mut w2 = *ctx.rng.pick(&pool);
+        if w2 == w { w2 = if w == "A" { "Query" } else { "A" }; }
+        kinds_case(ctx, &x, &y, &y2, &z, &z2, w, w2);
     }
 }
 
